@@ -608,8 +608,10 @@ def main():
     os.makedirs(os.path.dirname(OUT), exist_ok=True)
     old = open(OUT).read() if os.path.exists(OUT) else None
     if old != txt:
-        with open(OUT, "w") as f:
+        _tmp = OUT + ".tmp%d" % os.getpid()
+        with open(_tmp, "w") as f:
             f.write(txt)
+        os.replace(_tmp, OUT)  # atomic: a concurrent coqc never sees a partial file
     return {"attrs": attrs, "prog": prog, "rejects": rejects, "exceeded": exceeded, "iteration": iteration,
             "constrs_met": cm, "converged": conv_ret, "loop": loop_order, "sha256": sha[:16],
             "factor_lists": FACTOR_LISTS,
